@@ -219,6 +219,13 @@ func runGlobals(r *core.Run) {
 							continue
 						}
 						nclos++
+						if closureOnlyCalledInPlace(x) {
+							// a helper closure of the enclosing function (set := func(…){ table[c] |= … }; set(…)): the
+							// function value never leaves the invocation that created it, so the variable it captured
+							// is that invocation's local and dies with it — not state shared between callers
+							scan(cf, depth+1)
+							continue
+						}
 						for i, fv := range cf.FreeVars {
 							if w := writesThroughFreeVar(cf, fv); w != nil {
 								r.Fail(fmt.Sprintf("closure %s created at package init writes captured %s", fnLabel(cf), fv.Name()), w.Pos(), "a function value built during package initialisation mutates a variable it captured: that variable is process-wide shared state (instances interfere, concurrent calls race)")
@@ -432,7 +439,7 @@ func runNoShare(r *core.Run) {
 			}
 		}
 	}
-	// sync.Mutex appears only as field of binaryReaderSeeker
+	// sync.Mutex appears only as a field (per-instance lock, today: the seeker-backed binary reader)
 	if pk := r.Prog.Pkg(""); pk != nil {
 		n := 0
 		for id, obj := range pk.TypesInfo.Defs {
@@ -442,7 +449,9 @@ func runNoShare(r *core.Run) {
 			}
 			n++
 			_ = id
-			r.Check(v.IsField() && v.Name() == "mu", "sync.Mutex holder "+v.Name(), v.Pos(), "", "a sync.Mutex other than binaryReaderSeeker.mu exists")
+			// a lock that is a field belongs to one instance; a package-level lock serialises state that every
+			// instance shares (the holder is identified by where it lives, not by its name)
+			r.Check(v.IsField() || v.Parent() != pk.Types.Scope(), "sync.Mutex holder "+v.Name(), v.Pos(), "", "a package-level sync.Mutex exists: it can only be there to guard state shared by all instances")
 		}
 		r.Count("sync.Mutex declarations", n)
 	}
@@ -501,4 +510,29 @@ func syncUses(info *types.Info, f *ast.File) []string {
 		return true
 	})
 	return out
+}
+
+// closureOnlyCalledInPlace: every use of the function value is a direct call of it in the function that built it.
+func closureOnlyCalledInPlace(mc *ssa.MakeClosure) bool {
+	refs := mc.Referrers()
+	if refs == nil || len(*refs) == 0 {
+		return false
+	}
+	for _, u := range *refs {
+		switch x := u.(type) {
+		case *ssa.DebugRef:
+		case *ssa.Call:
+			if x.Call.Value != ssa.Value(mc) {
+				return false // handed on as an argument
+			}
+			for _, a := range x.Call.Args {
+				if a == ssa.Value(mc) {
+					return false
+				}
+			}
+		default:
+			return false // stored, returned, deferred, sent, captured by another closure …
+		}
+	}
+	return true
 }
